@@ -23,3 +23,24 @@ package sshswarm
 //@   trusted
 //@   noframe
 //@   requires c != nil
+
+// a server connection is named after the key that authenticated it (not after a key that was
+// merely offered): ssh.NewServerConn is modelled by its documented contract (the callback runs for
+// offered keys in any order; the connection carries the Permissions of the authenticated one)
+//@ func newServer
+//@   noframe
+//@   requires s != nil
+//@   ensures [authkey] ret1 == nil ==> ret0 != nil && ret0.pubKey == sshauthkey()
+//@   before call FingerprintSHA256#0:
+//@     assert [authfp] arg0 == sshauthkey()
+//@   fnspec RemoteAddr:
+//@     pure
+//@   fnspec LocalAddr:
+//@     pure
+//@   fnspec PublicKey:
+//@     pure
+//@
+//@ func (*Swarm).LocalAddrs
+//@   trusted
+//@   pure
+//@   ensures len(ret) >= 1
